@@ -3,6 +3,7 @@ import VelaVerif.Lemmas.MlwFrame
 import VelaVerif.Lemmas.Reorder
 import VelaVerif.Lemmas.MlwSpec
 import VelaVerif.Gen.Core
+import VelaVerif.Gen.Mlw
 /-!
 # C07 — weight compression is lossless, hardware-ordered and memory-safe
 
@@ -18,6 +19,16 @@ search, chunk interleaving) is validated per run, not proved.
 -/
 namespace VelaVerif.Props.C07
 open VelaVerif VelaVerif.Mlw VelaVerif.Reorder VelaVerif.MlwSpec
+
+/-! ## constants of the code under test -/
+
+/-- The stream-format constants of `mlw_common.h`, the IFM block depths of `reorder` (mlw_encode.c) and
+    `ArchitectureFeatures.SubKernelMax`, as regenerated from the tree under test, are the ones the
+    model and the Spec are written with. -/
+theorem codec_constants_match :
+    Gen.Mlw.zdivDisable = zdivDisable ∧ Gen.Mlw.zdivEos = zdivEos ∧ Gen.Mlw.wdivUncompressed = wdivUncompressed ∧
+    Gen.Mlw.ifmBlockDepthSmall = ifmBlockDepthSmall ∧ Gen.Mlw.ifmBlockDepthLarge = ifmBlockDepthLarge ∧
+    Gen.Mlw.subKernelMaxH = 8 ∧ Gen.Mlw.subKernelMaxW = 8 := by decide
 
 /-! ## the reference decoder -/
 
@@ -126,7 +137,7 @@ theorem accelerator_params_valid (a : Gen.AccRow) (ha : a ∈ Gen.accelerators)
                       isDepthwise := false, isPartkernel := false, ifmBitdepth := bits,
                       decompH := Gen.Mlw.subKernelMaxH / dilY, decompW := Gen.Mlw.subKernelMaxW / dilX } := by
   have table : ∀ a ∈ Gen.accelerators, 0 < a.ifmUblock.depth ∧ 0 < a.ofmUblock.depth ∧
-      a.ifmUblock.depth ∣ Gen.Mlw.ifmBlockDepthSmall ∧ a.ifmUblock.depth ∣ Gen.Mlw.ifmBlockDepthLarge := by decide
+      a.ifmUblock.depth ∣ ifmBlockDepthSmall ∧ a.ifmUblock.depth ∣ ifmBlockDepthLarge := by decide
   obtain ⟨h1, h2, h3, h4⟩ := table a ha
   have hdec : ∀ d, d = 1 ∨ d = 2 → 0 < Gen.Mlw.subKernelMaxH / d ∧ 0 < Gen.Mlw.subKernelMaxW / d := by
     rintro d (rfl | rfl) <;> decide
